@@ -274,7 +274,7 @@ func (r *c06Runner) replayEdge(si int, p *c06Point, in *c06Instr) ([]string, str
 	var pan interface{}
 	func() {
 		defer func() { pan = recover() }()
-		w.cpu.Step()
+		w.liveStep()
 	}()
 	if pan != nil {
 		return []string{fmt.Sprintf("Step panicked: %v", pan)}, "", false
@@ -480,7 +480,7 @@ func (r *c06Runner) replayEdge(si int, p *c06Point, in *c06Instr) ([]string, str
 				w.cpu.RETNHandler, w.cpu.RETIHandler = hk, hk
 				func() {
 					defer func() { pan = recover() }()
-					w.cpu.Step()
+					w.liveStep()
 				}()
 				w.imem.Hook, w.iio.Hook = nil, nil
 				if k == 0 {
@@ -807,7 +807,7 @@ func c06BFS(c *Ctx, r *c06Runner) (int, int) {
 				var pan interface{}
 				func() {
 					defer func() { pan = recover() }()
-					w.cpu.Step()
+					w.liveStep()
 				}()
 				if pan != nil {
 					c.Report("c06/bfs", int64(trans), "", map[string]interface{}{"path": cur.path, "step": ac.in.label}, []string{fmt.Sprintf("panic: %v", pan)})
@@ -1055,7 +1055,7 @@ func c06Notifications(c *Ctx) {
 		var pan interface{}
 		func() {
 			defer func() { pan = recover() }()
-			cpu.Step()
+			liveStep(&cpu)
 		}()
 		n++
 		if pan != nil || cpu.SP != 0x8002 {
@@ -1153,6 +1153,7 @@ func c06IM0One(w *Worker, cs *Case) []string {
 	res := &w.res
 	res.Panic, res.RefPanic = nil, nil
 	res.Exp = cs.S
+	w.curCase = cs
 	w.safeRef(res)
 	w.safeImpl(res)
 	res.Got = fromCPU(&w.cpu)
